@@ -1013,6 +1013,34 @@ def run(ctx):
         meta_terms(ctx, cat, cid, terms, metas, mode=mode)
         # the second public view of the same catalog: restored from its cache directory
         meta_terms(ctx, impl.Catalog(cat.cache_directory), (cid, "reopened"), terms, metas, mode=mode + "/reopened")
+        if cid % 2 == 0:
+            # the arrays the accessors hand out belong to the caller: working in place on them (normalising weights, shifting
+            # redshifts, sorting) must not reach the cache - stored records and the metadata describing them stay as they were
+            before = {int(k): v.tobytes() for k, v in impl.patch_records(cat).items()}
+            for patch in cat.values():
+                for get in (lambda q: q.load_data(), lambda q: q.weights, lambda q: q.redshifts, lambda q: q.coords.data):
+                    try:
+                        arr = get(patch)
+                    except Exception:  # noqa: BLE001
+                        continue
+                    if isinstance(arr, np.ndarray) and arr.size:
+                        try:
+                            if arr.dtype.names:
+                                for nm in arr.dtype.names:
+                                    arr[nm] = arr[nm][::-1] * 3.0 + 1.0
+                            else:
+                                arr[...] = arr[::-1] * 3.0 + 1.0
+                            if hasattr(arr, "flush"):
+                                arr.flush()
+                        except (ValueError, TypeError):      # read-only: fine
+                            ctx.bump("returned-array-read-only")
+            again = impl.Catalog(cat.cache_directory)
+            after = {int(k): v.tobytes() for k, v in impl.patch_records(again).items()}
+            ctx.count(key=(cid, "caller-wrote"), nontrivial=True, kind="meta/%s/after-caller-wrote-into-returned-arrays" % mode)
+            if after != before:
+                ctx.fail("c12-caller-writes-reach-the-cache", "working in place on arrays returned by the patch accessors changed the records "
+                         "stored in the cache; the stored metadata no longer describe them", dict(mode=mode, patches=sorted(before)), case=(cid, "caller-wrote"))
+            meta_terms(ctx, again, (cid, "caller-wrote"), terms, metas, mode=mode + "/after-caller-wrote")
         keys = list(cat.keys())
         if given is not None:
             got = cat.get_centers()
